@@ -17,18 +17,28 @@
 (*                        unsuperseded value for every key                   *)
 EXTENDS Cache
 
-CONSTANTS K, Cap, WT, Pol, Dev, NP, N1, N2, N3, Gaps, Kinds, CL, RL, WL, DL, Pre, TTLv, SS
+CONSTANTS K, Cap, Pol, Dev, NP, N1, N2, N3, Kinds, Pre, TTLv, SS,
+          Scens     \* scenario ids explored (write mode + latencies + think times), chosen in Init
 
 NOps == <<N1, N2, N3>>
 Back0 == [k \in 1..K |-> IF k \in Pre THEN 100 + k ELSE 0]   \* keys in Pre are in the backing store initially
 
-G == [K |-> K, cap |-> Cap, wt |-> WT, pol |-> Pol, dev |-> Dev,
-      par |-> [ttl |-> TTLv, ss |-> SS, a1max |-> 50]]
+\* mirrored by SCENARIOS in harness/families/c16.py
+Scen(i) ==
+    CASE i = 1 -> [wt |-> FALSE, CL |-> 1, RL |-> 2, WL |-> 2, DL |-> 2, gaps |-> {0, 1}]
+      [] i = 2 -> [wt |-> TRUE,  CL |-> 1, RL |-> 2, WL |-> 2, DL |-> 2, gaps |-> {0, 1}]
+      [] i = 3 -> [wt |-> FALSE, CL |-> 1, RL |-> 1, WL |-> 3, DL |-> 3, gaps |-> {0, 2}]
+      [] i = 4 -> [wt |-> TRUE,  CL |-> 1, RL |-> 1, WL |-> 3, DL |-> 3, gaps |-> {0, 2}]
+      [] i = 5 -> [wt |-> FALSE, CL |-> 1, RL |-> 3, WL |-> 1, DL |-> 2, gaps |-> {0, 1, 2}]
+      [] i = 6 -> [wt |-> TRUE,  CL |-> 1, RL |-> 3, WL |-> 1, DL |-> 2, gaps |-> {0, 1, 2}]
+      [] i = 7 -> [wt |-> FALSE, CL |-> 0, RL |-> 2, WL |-> 2, DL |-> 1, gaps |-> {0, 1}]
+      [] i = 8 -> [wt |-> TRUE,  CL |-> 0, RL |-> 2, WL |-> 2, DL |-> 1, gaps |-> {0, 1}]
 Keys == 1..K
 Procs == 1..NP
 FIN == NP + 1
 
-VARIABLES s,      \* Cache.tla state
+VARIABLES sc,     \* scenario (constant along a behaviour)
+          s,      \* Cache.tla state
           ops,    \* [Procs \cup {FIN} -> op record]
           heap,   \* set of [t, q, p]: process p resumes at time t (q = creation counter)
           now, ctr,
@@ -41,24 +51,30 @@ VARIABLES s,      \* Cache.tla state
           fin,    \* finale script position (0 = not started)
           finalBack,
           plog    \* [Procs -> Seq(choice)]: the program chosen so far (read back by the harness)
-vars == <<s, ops, heap, now, ctr, left, h, st0, idx, reads, nv, fin, finalBack, plog>>
-View == <<s, ops, heap, now, ctr, left, h, st0, idx, reads, nv, fin, finalBack>>
+vars == <<sc, s, ops, heap, now, ctr, left, h, st0, idx, reads, nv, fin, finalBack, plog>>
+View == <<sc, s, ops, heap, now, ctr, left, h, st0, idx, reads, nv, fin, finalBack>>
 
-Lat(l) == CASE l = "CL" -> CL [] l = "RL" -> RL [] l = "WL" -> WL [] l = "DL" -> DL [] OTHER -> 0
+G == [K |-> K, cap |-> Cap, wt |-> Scen(sc).wt, pol |-> Pol, dev |-> Dev,
+      par |-> [ttl |-> TTLv, ss |-> SS, a1max |-> 50]]
+WT == Scen(sc).wt
+Lat(l) == CASE l = "CL" -> Scen(sc).CL [] l = "RL" -> Scen(sc).RL [] l = "WL" -> Scen(sc).WL
+            [] l = "DL" -> Scen(sc).DL [] OTHER -> 0
 
 \* a WB-mode invalidate of a dirty key (an explicit request to drop unflushed data) is outside the
 \* statement; clients do not issue it
-Choices == { c \in [kind : Kinds, k : Keys, gap : Gaps] :
-               /\ (c.kind \in {"flush", "invall"} => c.k = 1)
-               /\ (c.kind = "flush" => ~WT) }
+ChoicesOf(i) == { c \in [kind : Kinds, k : Keys, gap : Scen(i).gaps] :
+                    /\ (c.kind \in {"flush", "invall"} => c.k = 1)
+                    /\ (c.kind = "flush" => ~Scen(i).wt) }
+Choices == ChoicesOf(sc)
 
 RECURSIVE Perms(_)
 Perms(S) == IF S = {} THEN {<<>>} ELSE UNION { { <<x>> \o q : q \in Perms(S \ {x}) } : x \in S }
 
 Init ==
-    /\ s = InitS(G, Back0) /\ now = 0 /\ ctr = NP /\ idx = 0 /\ reads = {} /\ nv = 0 /\ fin = 0
+    /\ sc \in Scens
+    /\ s = InitS([K |-> K], Back0) /\ now = 0 /\ ctr = NP /\ idx = 0 /\ reads = {} /\ nv = 0 /\ fin = 0
     /\ finalBack = <<>>
-    /\ h = InitHist(G, Back0)
+    /\ h = InitHist([K |-> K], Back0)
     /\ left = [p \in Procs |-> NOps[p]]
     /\ st0 = [p \in Procs \cup {FIN} |-> 0]
     /\ \E c \in [Procs -> Choices] :
@@ -98,7 +114,7 @@ Run ==
                 h1 == IF starting /\ ~skip THEN HStart(h, op0, v, pos) ELSE h
                 h2 == IF o.done /\ ~skip THEN HEnd(h1, op0, v, spos, pos) ELSE h1
             IN
-            /\ now' = e.t /\ idx' = pos /\ s' = o.s
+            /\ sc' = sc /\ now' = e.t /\ idx' = pos /\ s' = o.s
             /\ nv' = IF starting /\ op0.kind = "put" THEN nv + 1 ELSE nv
             /\ h' = h2
             /\ st0' = [st0 EXCEPT ![p] = spos]
